@@ -22,9 +22,10 @@ for n in sorted(os.listdir(os.path.join(HERE, "seeded"))):
     else:
         verdict = "**not detected** (not decided by any rule)"
     rows.append(f"| {n} | {', '.join(os.path.basename(f) for f in files)} | {what} | {verdict} |")
-caught = sum(1 for r in rows if "not detected" not in r and "silent" not in r)
-silent = sum(1 for r in rows if "silent (" in r)
-block = ["<!-- matrix:start -->", f"Seeded changes: {len(rows)}; detected {caught}; silent twins {silent}; not detected {len(rows) - caught - silent}.", "",
+missed = sum(1 for r in rows if r.rstrip(" |").endswith("**not detected** (not decided by any rule)"))
+silent = sum(1 for r in rows if r.rstrip(" |").endswith("silent (neutralised by a later fix: no longer a violation)"))
+caught = len(rows) - missed - silent
+block = ["<!-- matrix:start -->", f"Seeded changes: {len(rows)}; detected {caught}; neutralised seeds silent {silent}; not detected {len(rows) - caught - silent}.", "",
          "| seed | file(s) changed | change (from the seeding agent's notes) | detected by |", "|---|---|---|---|", *rows, "<!-- matrix:end -->"]
 p = os.path.join(HERE, "DESIGN.md")
 s = open(p).read()
